@@ -106,4 +106,4 @@ Example ex_replicas_agree_instance :
     apply_all s_init ex_cs = Some (sfull, rfull) /\
     apply_all (restore sk (snapshot sj)) (skipn 3 ex_cs) = Some (s', r') /\
     fst s' = fst sfull /\ skipn 3 r' = skipn 6 rfull /\ d_index (fst sfull) = 10 /\ length (d_blobs (fst sfull)) = 1%nat.
-Proof. do 8 eexists. repeat split; vm_compute; reflexivity. Qed.
+Proof. do 8 eexists. repeat (match goal with |- _ /\ _ => split end); vm_compute; reflexivity. Qed.
